@@ -137,8 +137,10 @@ def ownership(nested_subset, labels, values, links, meaning_of=None):
 # -------------------------------------------------------------------------------------------
 # query evaluation (A.7).  comps: list of (separator, id, slice) with slice as in mc.ref.pathlang
 def _apply(matches, slc):
+    """the matches a slice selects, kept in document order (a negative step selects, it does not reorder)"""
     from mc.ref.pathlang import apply_slice
-    return apply_slice(slc, matches)
+    keep = sorted(apply_slice(slc, list(range(len(matches)))))
+    return [matches[i] for i in keep]
 
 
 def evaluate(node, comps):
